@@ -1302,8 +1302,73 @@ theorem GDestFree.sameShape {t t' : Tree} {rs : List Ren} (h : GDestFree t rs) (
     (P := fun k => k ≠ r.path → k.dropLast = r.path.dropLast → k.getLast? ≠ r.newPath.getLast?)
     (h r hr).1
 
-/-- the whole of `applyPlan`: when the content phase succeeds, the tree it leaves is moved by
-    `moveAll`, and only STEP 4 (reading back edited files) can still fail -/
+-- the pre-flight check of `apply_plan` and STEP 4 ----------------------------------------------------------
+
+theorem preflight_of_fresh {t : Tree} {rs : List Ren} (hf : ∀ e ∈ t, Fresh rs e.1) :
+    preflightOk t rs = true := by
+  unfold preflightOk
+  rw [List.all_eq_true]
+  intro r hr
+  cases hl : lookup t r.newPath with
+  | none => simp
+  | some n =>
+    obtain ⟨e, he, hk⟩ := mem_of_lookup_some hl
+    have := hf e he r hr (by rw [hk]; exact pre_refl _)
+    simp [this]
+
+/-- the second half of `GDestFree`: renamed siblings get different new names -/
+def SiblingDestsDistinct (rs : List Ren) : Prop :=
+  ∀ r ∈ rs, ∀ r' ∈ rs, r'.path ≠ r.path → r'.path.dropLast = r.path.dropLast →
+    r'.newPath.getLast? ≠ r.newPath.getLast?
+
+/-- the pre-flight check is exactly the first half of `GDestFree` -/
+theorem destFree_of_preflight {t : Tree} {rs : List Ren} (hlo : LastOnly rs)
+    (hpf : preflightOk t rs = true) (h2 : SiblingDestsDistinct rs) : GDestFree t rs := by
+  intro r hr
+  refine ⟨?_, h2 r hr⟩
+  intro e he hne hdl hlast
+  unfold preflightOk at hpf
+  rw [List.all_eq_true] at hpf
+  have hr' := hpf r hr
+  obtain ⟨h1, h2', h3⟩ := hlo r hr
+  have hk : e.1 = r.newPath := by
+    have he0 : e.1 ≠ [] := by
+      intro h0
+      rw [h0, List.getLast?_nil] at hlast
+      obtain ⟨c, hc⟩ := eq_dropLast_snoc r.newPath h2'
+      rw [hc, List.getLast?_concat] at hlast
+      cases hlast
+    obtain ⟨a, ha⟩ := eq_dropLast_snoc e.1 he0
+    obtain ⟨c, hc⟩ := eq_dropLast_snoc r.newPath h2'
+    rw [ha, hc, List.getLast?_concat, List.getLast?_concat] at hlast
+    rw [ha, hc, hdl, h3, Option.some.inj hlast]
+  have hsome : ∃ n, lookup t r.newPath = some n := lookup_some_of_mem t _ ⟨e, he, hk⟩
+  obtain ⟨n, hn⟩ := hsome
+  have hne' : r.newPath ≠ [] := h2'
+  simp only [hn, Option.isNone_some, Bool.or_false, Bool.or_eq_true, List.isEmpty_iff,
+    beq_iff_eq] at hr'
+  rcases hr' with h0 | h0
+  · exact hne' h0
+  · exact hne (hk.trans h0)
+
+/-- STEP 4 looks for every path at its final location: an exact entry of `renames_performed`, else
+    the last recorded prefix -/
+theorem currentPath_eq_finalPath (L : List Ren) (hord : Ord L) (f : Path) :
+    currentPath (perfOf L L) f = finalPath L f := by
+  unfold currentPath
+  cases hf : (perfOf L L).find? (fun pr => pr.1 == f) with
+  | some pr =>
+    have hm := List.mem_of_find?_eq_some hf
+    have hp := List.find?_some hf
+    simp only [perfOf, List.mem_map] at hm
+    obtain ⟨d, _, rfl⟩ := hm
+    have : d.path = f := by simpa using hp
+    simp only [this]
+  | none =>
+    exact rebase_eq_finalPath L L hord f (fun _ hx _ => hx)
+
+/-- the whole of `applyPlan`: the pre-flight check passes; when the content phase succeeds, the tree
+    it leaves is moved by `moveAll`, and only STEP 4 (reading back edited files) can still fail -/
 theorem applyPlan_moves (t : Tree) (p : Plan) (hlo : LastOnly p.rens) (h2 : GDistinctSources p.rens)
     (h3 : GTreeWF t) (h4 : GKindsOk t p.rens) (h5 : GDestFree t p.rens)
     (hc : (contentPhase p.hunks t (sortedFiles p.hunks)).1 = .ok) :
@@ -1312,15 +1377,29 @@ theorem applyPlan_moves (t : Tree) (p : Plan) (hlo : LastOnly p.rens) (h2 : GDis
   have hs := sameShape_contentPhase p.hunks (sortedFiles p.hunks) t
   have hr := renamePhase_sortRens (contentPhase p.hunks t (sortedFiles p.hunks)).2 p.rens hlo h2
     (h3.sameShape hs) (h4.sameShape hs) (h5.sameShape hs)
+  have hpf : preflightOk t p.rens = true := preflight_of_fresh (fresh_keys h3 hlo h5)
   unfold applyPlan
+  rw [hpf]
   cases hcp : contentPhase p.hunks t (sortedFiles p.hunks) with
   | mk o t1 =>
     rw [hcp] at hc hr
     simp only at hc hr
     subst hc
-    simp only [hr, backupPhase]
+    simp only [hr, backupPhase, Bool.not_true, Bool.false_eq_true, if_false]
     split
     · exact ⟨rfl, Or.inl rfl⟩
     · exact ⟨rfl, Or.inr rfl⟩
+
+/-- a plan whose destination exists is refused before anything is touched -/
+theorem applyPlan_refused (t : Tree) (p : Plan) (h : preflightOk t p.rens = false) :
+    applyPlan t p = { outcome := .destExists, tree := t } := by
+  unfold applyPlan
+  rw [h]; rfl
+
+theorem currentPath_sortRens (rs : List Ren) (hd : Distinct rs) (hfl : FileLeaf rs) (f : Path) :
+    currentPath ((sortRens rs).map (fun r => (r.path, finalPath rs r.path))) f = finalPath rs f := by
+  have := currentPath_eq_finalPath (sortRens rs) (sortRens_ord rs hd hfl) f
+  simp only [perfOf, finalPath_sortRens rs hd] at this
+  exact this
 
 end RenamePhase
